@@ -383,6 +383,24 @@ func c02GenRel(r *lib.Rng, shape string, kindSwap, reserved bool) (*lib.Build, *
 		put(B.Path, A.Data)
 		put("fan1", A.Data)
 		put("moved-b", B.Data)
+	case "keep+dup-onto-source": // A stays AND is copied onto B while B moves on (no-op first in A's group)
+		put(A.Path, A.Data)
+		put(B.Path, A.Data)
+		put("moved-b", B.Data)
+	case "keep+dup-onto-source-rev": // the same with the kept path after the duplicate's path
+		put(B.Path, B.Data)
+		put(A.Path, B.Data)
+		put("moved-a", A.Data)
+	case "keep+dup-onto-chain": // A stays, A -> B, B -> C, C's content moves to a new path
+		put(A.Path, A.Data)
+		put(B.Path, A.Data)
+		put(C.Path, B.Data)
+		put("a/moved-c", C.Data)
+	case "patched+dup-onto-source": // A is patched in place AND copied onto B while B moves on
+		d, _ := c02Edit(r, A.Data)
+		put(A.Path, d)
+		put(B.Path, A.Data)
+		put("moved-b", B.Data)
 	case "patched+renamesrc":
 		d, _ := c02Edit(r, A.Data)
 		put(A.Path, d)
@@ -528,6 +546,152 @@ func c02Reserved(r *lib.Rng, old, nw *lib.Build) []string {
 	return []string{"reserved-name:" + name}
 }
 
+// c02MapPool: short names; byte order = the containers' order, so kept / duplicated / renamed
+// paths come in every relative order, in the root and below directories that may disappear
+var c02MapPool = []string{"a", "b", "c", "d", "e", "m/a", "m/b", "m/n/c", "z"}
+
+// c02GenMap draws the path-level relation as a random FUNCTION instead of one relation per old
+// path: the new build's file paths are a random subset of the old paths plus up to two fresh
+// ones, and each of them independently gets the whole content of a uniformly drawn old file
+// (its own: kept; another one: rename / duplicate), an edited version of the old file at its own
+// path (patched), an edited version of another old file, new content, or nothing. Every
+// combination of the property text is reachable this way, in particular the ones the
+// per-old-path generator cannot produce: a file kept AND duplicated onto a path whose old file
+// is itself renamed, duplicated or patched; chains and cycles with fan-out; a swap one half of
+// which is also kept elsewhere.
+func c02GenMap(r *lib.Rng) (*lib.Build, *lib.Build, []string) {
+	old, nw := &lib.Build{}, &lib.Build{}
+	perm := make([]int, len(c02MapPool))
+	for i := range perm {
+		perm[i] = i
+	}
+	for i := len(perm) - 1; i > 0; i-- {
+		j := r.Intn(i + 1)
+		perm[i], perm[j] = perm[j], perm[i]
+	}
+	k := r.Range(2, 4)
+	var olds []lib.Entry
+	for i := 0; i < k; i++ {
+		size := r.Range(1, 900)
+		switch r.Intn(8) {
+		case 0:
+			size = []int{8191, 8192, 8193, 16400}[r.Intn(4)]
+		case 1:
+			size = r.Range(0, 3)
+		}
+		// the last byte makes the contents pairwise distinct: the relation is unambiguous
+		e := lib.Entry{Path: c02MapPool[perm[i]], Kind: "file", Data: append(c02Content(r, size), byte(20+i))}
+		olds = append(olds, e)
+		old.Put(e)
+	}
+	var dests []string
+	for _, e := range olds {
+		if r.Chance(4, 5) {
+			dests = append(dests, e.Path)
+		}
+	}
+	for j, nfresh := 0, r.Intn(3); j < nfresh; j++ {
+		dests = append(dests, c02MapPool[perm[k+j]])
+	}
+	var rel []string
+	for _, p := range dests {
+		own := old.Get(p)
+		src := olds[r.Intn(k)]
+		switch x := r.Intn(20); {
+		case x < 14: // whole content of an old file
+			nw.Put(lib.Entry{Path: p, Kind: "file", Data: src.Data})
+			switch {
+			case src.Path == p:
+				rel = append(rel, "kept:"+p)
+			case own != nil:
+				rel = append(rel, "takes:"+p+"<="+src.Path)
+			default:
+				rel = append(rel, "copyof:"+p+"<="+src.Path)
+			}
+		case x < 17: // patched (edited version of the old file at the same path, else of any old file)
+			if own != nil {
+				src = *own
+			}
+			d, how := c02Edit(r, src.Data)
+			nw.Put(lib.Entry{Path: p, Kind: "file", Data: d})
+			if own != nil {
+				rel = append(rel, "patched:"+p+":"+how)
+			} else {
+				rel = append(rel, "takes-edited:"+p+"<="+src.Path+":"+how)
+			}
+		case x < 18:
+			d, how := c02Edit(r, src.Data)
+			nw.Put(lib.Entry{Path: p, Kind: "file", Data: d})
+			rel = append(rel, "takes-edited:"+p+"<="+src.Path+":"+how)
+		case x < 19:
+			nw.Put(lib.Entry{Path: p, Kind: "file", Data: append(c02Content(r, r.Range(1, 600)), 40)})
+			rel = append(rel, "newcontent:"+p)
+		default:
+			nw.Put(lib.Entry{Path: p, Kind: "file"})
+			rel = append(rel, "empty:"+p)
+		}
+	}
+	for _, e := range olds {
+		if nw.Get(e.Path) == nil {
+			rel = append(rel, "removed:"+e.Path)
+		}
+	}
+	return old, nw, rel
+}
+
+// c02Features names the combinations present in the transposition work list (new path, old path):
+// what the generators reached, independent of how the pair was produced.
+func c02Features(l *c02Lists) []string {
+	groups := map[string][]string{}
+	for _, t := range l.Transpos {
+		groups[t[1]] = append(groups[t[1]], t[0])
+	}
+	overlay := map[string]bool{}
+	for _, p := range l.Overlays {
+		overlay[p] = true
+	}
+	set := map[string]bool{}
+	for k, dests := range groups {
+		noop, others, clash := false, 0, false
+		noopFirst := dests[0] == k
+		for _, d := range dests {
+			if d == k {
+				noop = true
+				continue
+			}
+			others++
+			if _, ok := groups[d]; ok {
+				clash = true
+			}
+		}
+		if others == 0 {
+			continue
+		}
+		kind := "rename"
+		switch {
+		case noop && noopFirst:
+			kind = "keep+dup"
+		case noop:
+			kind = "dup+keep"
+		case overlay[k]:
+			kind = "patched+rename"
+		}
+		if others > 1 {
+			kind += "+fanout"
+		}
+		if clash {
+			kind += "-onto-source"
+		}
+		set[kind] = true
+	}
+	var out []string
+	for f := range set {
+		out = append(out, f)
+	}
+	sort.Strings(out)
+	return out
+}
+
 // ---------------------------------------------------------------- corpus (fixed cases, run first)
 
 type c02Fixed struct {
@@ -561,6 +725,11 @@ func c02Corpus() []c02Fixed {
 		{"shape/chain", []lib.Entry{fE("a", X), fE("b", Y), fE("c", Z)}, []lib.Entry{fE("b", X), fE("c", Y)}},
 		{"shape/cycle3", []lib.Entry{fE("a", X), fE("b", Y), fE("c", Z)}, []lib.Entry{fE("a", Z), fE("b", X), fE("c", Y)}},
 		{"shape/fanout-onto-source", []lib.Entry{fE("a", X), fE("b", Y)}, []lib.Entry{fE("b", X), fE("n/fan", X), fE("moved", Y)}},
+		// a kept AND duplicated onto b while b is renamed (the no-op first / last in a's group), also with a patched
+		{"shape/keep+dup-onto-source", []lib.Entry{fE("a", X), fE("b", Y)}, []lib.Entry{fE("a", X), fE("b", X), fE("c", Y)}},
+		{"shape/dup+keep-onto-source", []lib.Entry{fE("a", X), fE("b", Y)}, []lib.Entry{fE("a", Y), fE("b", Y), fE("c", X)}},
+		{"shape/keep+dup-onto-chain+fanout", []lib.Entry{fE("a", X), fE("b", Y), fE("c", Z)}, []lib.Entry{fE("a", X), fE("b", X), fE("c", Y), fE("d", Z), fE("e", Y)}},
+		{"shape/patched+dup-onto-source", []lib.Entry{fE("a", X), fE("b", Y)}, []lib.Entry{fE("a", X+"tail"), fE("b", X), fE("c", Y)}},
 		{"shape/patched+renamesrc", []lib.Entry{fE("a", X), fE("b", Y)}, []lib.Entry{fE("a", X[:300]+"!"+X[300:]), fE("moved", X), fE("b", Y)}},
 		{"shape/patched+fanout", []lib.Entry{fE("a", X), fE("b", Y)}, []lib.Entry{fE("a", "!"+X), fE("m1", X), fE("q/m2", X), fE("b", Y)}},
 		{"shape/swap+patched-self", []lib.Entry{fE("a", X), fE("b", Y)}, []lib.Entry{fE("a", Y), fE("b", Y+"tail")}},
@@ -1072,6 +1241,17 @@ func runC02Case(c *Ctx, idx int, sp c02Spec) (out []*lib.Case, err error) {
 		if cl == "hang" {
 			break
 		}
+		if rep == 0 && lists != nil && lists.OvOps != nil && c02OrderSensitive(lists) {
+			// two or more transposition groups: Commit ranges over a Go map of them, and which
+			// group comes first cannot be forced, only sampled; small cases are cheap to repeat
+			// (quick: 3 -> 9 up to 1 MiB of file data; thorough: 8 -> 16 up to 16 KiB)
+			switch size := dataSize(sp.old, sp.nw); {
+			case c.Tier == "quick" && size <= 1<<20:
+				reps *= 3
+			case c.Tier != "quick" && size <= 16<<10:
+				reps *= 2
+			}
+		}
 	}
 	removeAll(work)
 	removeAll(stage)
@@ -1085,6 +1265,8 @@ func runC02Case(c *Ctx, idx int, sp c02Spec) (out []*lib.Case, err error) {
 	obs["transpositions"] = lists.Transpos
 	obs["overlays"] = lists.Overlays
 	obs["moves"] = lists.Moves
+	obs["features"] = c02Features(lists)
+	obs["repetitions"] = len(results)
 	nonNoop := 0
 	for _, t := range lists.Transpos {
 		if t[0] != t[1] {
@@ -1168,6 +1350,27 @@ func runC02Case(c *Ctx, idx int, sp c02Spec) (out []*lib.Case, err error) {
 	return out, nil
 }
 
+// c02OrderSensitive: at least two groups of transpositions, one of them doing something
+func c02OrderSensitive(l *c02Lists) bool {
+	groups := map[string]bool{}
+	moving := false
+	for _, t := range l.Transpos {
+		groups[t[1]] = true
+		if t[0] != t[1] {
+			moving = true
+		}
+	}
+	return moving && len(groups) >= 2
+}
+
+func dataSize(bs ...*lib.Build) int {
+	n := 0
+	for _, d := range allData(bs...) {
+		n += len(d)
+	}
+	return n
+}
+
 func allData(bs ...*lib.Build) [][]byte {
 	var out [][]byte
 	for _, b := range bs {
@@ -1191,7 +1394,7 @@ func c02FirstLine(s string) string {
 }
 
 var c02ShapeNames = []string{"swap", "chain", "chain-new", "cycle3", "fanout-keep", "fanout-drop", "fanout-onto-source",
-	"patched+renamesrc", "patched+fanout", "swap+patched", "swap+patched-self", "grow-shrink-empty", "from-empty", "", ""}
+	"keep+dup-onto-source", "keep+dup-onto-source-rev", "keep+dup-onto-chain", "patched+dup-onto-source", "patched+renamesrc", "patched+fanout", "swap+patched", "swap+patched-self", "grow-shrink-empty", "from-empty", "", ""}
 
 func runC02(c *Ctx) error {
 	r := c.Rng.Fork()
@@ -1231,6 +1434,21 @@ func runC02(c *Ctx) error {
 			cls += "+reserved"
 		}
 		opt := (i/len(c02ShapeNames))%2 == 1
+		if opt {
+			cls += "/opt"
+		}
+		if err := add(c02Spec{class: cls, old: old, nw: nw, rel: rel, optimize: opt, corr: true}); err != nil {
+			return err
+		}
+		idx++
+	}
+	// the relation drawn as a random function over a few short paths (model correspondence)
+	n = c.N(48, 1000)
+	for i := 0; i < n; i++ {
+		cr := r.Fork()
+		old, nw, rel := c02GenMap(cr)
+		cls := "map"
+		opt := i%4 == 3
 		if opt {
 			cls += "/opt"
 		}
